@@ -133,6 +133,7 @@ struct World {
     vsched sched;
     std::unique_ptr<cocls::suspend_point<bool>> final_sp;
     std::string payload_name(int who) {
+        if (who == 0) return "pre";      // resolved before the threads started (header "pre")
         for (auto &kv : rkind) if (atoi(kv.first.c_str() + 1) == who) return kv.first;
         return "r?" + std::to_string(who);
     }
@@ -383,7 +384,20 @@ static void run_one(const Scenario &sc, Reporter &rep, Explore *ex) {
     w.fine = sc.hdr.at("fine").as_bool(false);
     w.form = (int) sc.hdr.at("form").as_int(0) + (ex ? (int) (ex->next() % 6) : 0);
     w.sched.yield_after = w.fine;
-    w.p = new cocls::promise<Payload>(w.fut.get_promise());
+    // how the future under test comes into being: default + get_promise(), or re-armed in place through operator<< /
+    // result_of from a function that returns a pending future; header "pre": from a function that returns a READY
+    // future (value / exception / dropped promise) or that THROWS (result_of stores the exception and resolves)
+    std::string pre = sc.hdr.at("pre").as_str("none");
+    if (pre == "none") {
+        if (w.form % 2 == 0) w.p = new cocls::promise<Payload>(w.fut.get_promise());
+        else w.fut << [&]() -> cocls::future<Payload> { return cocls::future<Payload>([&](cocls::promise<Payload> p) { w.p = new cocls::promise<Payload>(std::move(p)); }); };
+    } else {
+        if (pre == "exc_throw") w.fut << [&]() -> cocls::future<Payload> { throw TestExc(0); };
+        else if (pre == "exc") w.fut << [&]() -> cocls::future<Payload> { return cocls::future<Payload>::set_exception(std::make_exception_ptr(TestExc(0))); };
+        else if (pre == "val") w.fut << [&]() -> cocls::future<Payload> { return cocls::future<Payload>::set_value(MAKE_ARG(0)); };
+        else w.fut << [&]() -> cocls::future<Payload> { return cocls::future<Payload>([&](cocls::promise<Payload>) {}); };   // "drop"
+        w.p = new cocls::promise<Payload>();     // an empty promise object: nothing to resolve
+    }
     w.p_owner_addr = &((*w.p).*PProbe::owner_mp());
     w.copies0 = payload_copies();
     w.bind = sc.hdr.at("bind").as_bool(false);
@@ -435,6 +449,14 @@ static void run_one(const Scenario &sc, Reporter &rep, Explore *ex) {
             warm_thread();
             if (kind == "val") {
                 bool b;
+#ifndef PAYLOAD_REF
+                if (!w.bind && form % 3 == 2) {
+                    // a coroutine started with the promise: async::start(promise&) claims it; only the claimer starts the body,
+                    // whose co_return stores the value and whose final suspend resolves the future
+                    auto c = final_coro(who);                  // the user's frame (outside the library scope)
+                    { lib_scope s; b = (bool) c.start(*w.p); }
+                } else
+#endif
                 { lib_scope s; if (w.bind) b = w.call_bound(); else if (form % 2 == 0) b = (*w.p)(MAKE_ARG(who)); else b = w.p->set_value(MAKE_ARG(who)); }
                 w.rres[name] = b ? "true" : "false";
             } else if (kind == "exc") {
